@@ -278,3 +278,16 @@ Proof.
   - intros m e He. by destruct (ospec_entry_inv _ _ _ _ He) as (? & ? & ?).
   - intros k ms Hk. by destruct (ospec_deferred_inv _ _ _ _ HH Hk) as (? & ? & _).
 Qed.
+
+Lemma orswot_no_residue H (Hok : ohist_ok H) s K c : oreach H s K →
+  s = ospec H K ∧
+  (vle c (oclock s) = true → odeferred s !! c = None) ∧
+  (∀ m e, oentries s !! m = Some e → e ≠ ∅ ∧ e = ospec_entry (known_ops H K) m) ∧
+  (∀ ms, odeferred s !! c = Some ms → vle c (oclock s) = false ∧ ms = rm_members (known_ops H K) c).
+Proof.
+  intros Hr. pose proof (ohist_ok_wf H Hok) as HH.
+  destruct (orswot_pending H Hok s K c Hr) as (P1 & _ & P3 & _).
+  destruct (orswot_reach_spec _ _ _ HH Hr) as [Hs _]. split_and!; [done|done| |].
+  - intros m e He. subst s. destruct (ospec_entries_Some _ _ _ He) as [-> Hne]. done.
+  - intros ms Hms. destruct (P1 ms Hms) as (_ & _ & ? & ?). done.
+Qed.
